@@ -32,7 +32,10 @@ Raisers == {<<"call", 1>>, <<"call3", 3>>, <<"div2", 2>>, <<"index2", 2>>, <<"at
             <<"py-compr-if", 1>>, <<"py-compr-iter", 1>>, <<"py-lambda-default", 1>>, <<"pys-with", 1>>, <<"py-call", 1>>,
             \* code that a macro call generates (the raising code sits at depth 0..3 of the expansion): it has no
             \* source text of its own, its span is the span of the call that produced it
-            <<"gen-d0", 2>>, <<"gen-d1", 2>>, <<"gen-d2", 2>>, <<"gen-d3", 2>>, <<"rgen-d2", 1>>, <<"domac-d2", 2>>}
+            <<"gen-d0", 2>>, <<"gen-d1", 2>>, <<"gen-d2", 2>>, <<"gen-d3", 2>>, <<"rgen-d2", 1>>, <<"domac-d2", 2>>,
+            \* ... in the replacement field, and in the nested format-spec field, of a generated f-string; and
+            \* macros whose expansion is a collection display rather than an expression
+            <<"gen-fstr", 2>>, <<"gen-fspec", 2>>, <<"gen-list", 2>>, <<"gen-dict", 2>>}
 
 VARIABLES chain, raiser
 vars == <<chain, raiser>>
